@@ -782,7 +782,9 @@ def g_bound_history(rng):
 
     def value(numeric):
         if numeric or rng.random() < 0.8:
-            return g_pynum(rng, True, value=True) if rng.random() < 0.4 else g_number(rng, False)
+            # no Python floats here: a Float substituted next to a rational constant makes sympy factor
+            # (x - 2.5)**2 into 6.25*(0.4*x - 1)**2, which is not the same rational function any more
+            return g_pynum(rng, False) if rng.random() < 0.4 else g_number(rng, False)
         return ["add", ["sym", rng.choice(extra[:2])], g_number(rng, False)]
     first = [s for s in syms if rng.random() < 0.5] or [syms[0]]
     rest = [s for s in syms if s not in first]
@@ -795,7 +797,7 @@ def g_bound_history(rng):
                           via=rng.choice(["circuit", "circuit", "ops", "gates"])))
     if rng.random() < 0.6:
         steps.append(dict(edits=[["clear"]] + [["set", k, ["pyint", rng.randint(5, 9)]] for k in rng.sample(BOUND_NAMES, 2)]
-                          + ([["set", "t", ["pyfloat", (0.25).hex()]]] if "t" not in syms else []),
+                          + ([["set", "t", ["rat", 1, 4]]] if "t" not in syms else []),
                           chain=rng.random() < 0.7, via=rng.choice(["circuit", "ops", "gates"])))
     return dict(kind="history", label="bound-history", depends=True, ops=ops, n=width, steps=steps, envs=g_envs(rng, SYMS))
 
@@ -897,8 +899,19 @@ def run_case(inp):
         m = {}                                    # the one dict object every step binds with
         cur, chks, msg, changed, prev = c0, [], "", 0, None
         dep = inp.get("depends", False)
+        skipped = 0
+
+        def depends_msg(c):
+            nonlocal skipped
+            st, res = outcome(oracle_depends, c, env_of(envs), timeout=20)
+            if st == "ok":
+                return res
+            if res == "Timeout":            # a slow sympy evaluation: no verdict, counted in the kind label
+                skipped += 1
+                return ""
+            return f"dependence oracle raised {res}"
         if dep:
-            msg = oracle_depends(c0, env_of(envs))
+            msg = depends_msg(c0)
         for i, step in enumerate(inp["steps"]):
             for e in step["edits"]:
                 if e[0] == "clear":
@@ -920,10 +933,11 @@ def run_case(inp):
             if st == "ok":
                 cur = out
                 if dep and not msg:
-                    dmsg = oracle_depends(out, env_of(envs))
+                    dmsg = depends_msg(out)
                     if dmsg:
                         msg = f"step {i + 1} (map {snapshot}): {dmsg}"
-        return dict(chk=" && ".join(chks), oracle_ok=not msg, oracle_msg=msg, kind=inp.get("label", kind),
+        return dict(chk=" && ".join(chks), oracle_ok=not msg, oracle_msg=msg,
+                    kind=inp.get("label", kind) + ("-oracle-timeout" if skipped else ""),
                     nontrivial=changed > 0 or (dep and len(inp["steps"]) > 0))
     if kind == "custom-matrix":
         d = DEFS[inp["d"]]
